@@ -26,6 +26,8 @@ class Source:
         self._funcs = {}
         self.consulted = set()
         self._rawtree = {}
+        self.canon_errors = []   # programming errors of the canonicaliser (NameError, ImportError ...): the run is analysis-broken
+        self.canon_notes = []    # the canonicaliser gave up on a construct: rules see the file as written
         self.splices = {}        # rel -> [(qualname, canon_lo, canon_hi, orig_lo, orig_hi)]: functions analysed in reviewed form
 
     def orig_line(self, rel, line):
@@ -88,20 +90,29 @@ class Source:
             self._raw[rel] = raw
             if self.canonical and rel.endswith('.py'):
                 from .canon import canonicalise, propagate_copies, splice_equivalent
+                # Canonicalisation is best effort for the SOURCE (an unusual construct may defeat it, the rules then see the file as
+                # written), but a programming error of the canonicaliser itself must not pass silently: it is recorded and the run is
+                # reported as analysis-broken (a NameError here once disabled helper inlining for every file without any sign).
                 try:
                     raw, sp = splice_equivalent(rel, raw)
                     if sp:
                         self.splices[rel] = sp
-                except Exception:
-                    pass
+                except (SyntaxError, RecursionError, ValueError, KeyError, IndexError, AttributeError, TypeError, AssertionError) as e:
+                    self.canon_notes.append(f'{rel}: splice_equivalent gave up ({type(e).__name__}: {e})')
+                except Exception as e:
+                    self.canon_errors.append(f'{rel}: splice_equivalent: {type(e).__name__}: {e}')
                 try:
                     raw = canonicalise(rel, raw)
-                except Exception:      # canonicalisation is best effort: never let it break a check
-                    pass
+                except (SyntaxError, RecursionError, ValueError, KeyError, IndexError, AttributeError, TypeError, AssertionError) as e:
+                    self.canon_notes.append(f'{rel}: canonicalise gave up ({type(e).__name__}: {e})')
+                except Exception as e:
+                    self.canon_errors.append(f'{rel}: canonicalise: {type(e).__name__}: {e}')
                 try:
                     raw = propagate_copies(rel, raw)
-                except Exception:
-                    pass
+                except (SyntaxError, RecursionError, ValueError, KeyError, IndexError, AttributeError, TypeError, AssertionError) as e:
+                    self.canon_notes.append(f'{rel}: propagate_copies gave up ({type(e).__name__}: {e})')
+                except Exception as e:
+                    self.canon_errors.append(f'{rel}: propagate_copies: {type(e).__name__}: {e}')
             self._text[rel] = raw
         self.consulted.add(rel)
         return self._text[rel]
